@@ -288,7 +288,8 @@ def w_program(ctx, rng, i):
                     op = "fancy2_reused"
         elif op == "repeat":
             k = int(rng.integers(0, 4))
-            r, rm = a.repeat(k), [e for e in am for _ in range(k)]
+            # (the count as a Python int, or as the numpy integer an array computation hands over)
+            r, rm = a.repeat(k if rng.random() < 0.6 else [np.int64, np.intp, np.uint8][rng.integers(0, 3)](k)), [e for e in am for _ in range(k)]
             op = "repeat%d" % k
         elif op == "addlazy":
             b, bm, _ = pool[rng.integers(0, len(pool))]
@@ -557,6 +558,7 @@ def w_imported(ctx, rng, i):
     import menpo.shape as ms
     from menpo.base import LazyList
     tmp = tempfile.mkdtemp(prefix="vf-c19i-")
+    cwd0 = os.getcwd()
     try:
         n = int(rng.integers(2, 6))
         kind = ["images", "landmarks", "pickles"][i % 3]
@@ -579,12 +581,20 @@ def w_imported(ctx, rng, i):
                 return int(round(float(list(o.values())[0].points[0, 0]) if hasattr(o, "values") else float(o.points[0, 0])))
             return int(o["k"])
         pat = os.path.join(tmp, "*" + {"images": ".png", "landmarks": ".pts", "pickles": ".pkl"}[kind])
+        relative = bool(rng.random() < 0.35)
+        cwd0 = os.getcwd()
+        if relative:
+            # the pattern given relative to the working directory - which the program changes before it reads the list
+            os.chdir(os.path.dirname(tmp))
+            pat = os.path.join(os.path.basename(tmp), os.path.basename(pat))
         if kind == "images":
             ll = mio.import_images(pat, normalize=bool(rng.random() < 0.5))
         elif kind == "landmarks":
             ll = mio.import_landmark_files(pat)
         else:
             ll = mio.import_pickles(pat)
+        if relative:
+            os.chdir(tmp if rng.random() < 0.5 else "/")
         if not isinstance(ll, LazyList) or len(ll) != n:
             ctx.fail("length_differs_from_list_model", cls="LazyList", mech="imported_" + kind, got=len(ll), expected=n)
             return
@@ -615,6 +625,10 @@ def w_imported(ctx, rng, i):
     except Exception as e:
         ctx.fail("element_read_raised", cls="LazyList", mech="imported:%s" % type(e).__name__, error=repr(e)[:200])
     finally:
+        try:
+            os.chdir(cwd0)
+        except Exception:
+            os.chdir("/verif")
         shutil.rmtree(tmp, ignore_errors=True)
     ctx.count_case(("imported", kind, n), nontrivial=True)
 
